@@ -4,6 +4,7 @@ import VtProofs.PMFind
 import VtProofs.Hilbert
 import VtProofs.VersatilesWrite
 import VtProofs.MBTiles
+import VtProofs.TarDir
 /-!
 # C01 — container round trip is lossless for every tile set and every format
 
@@ -99,6 +100,26 @@ theorem mbtiles_roundtrip (tiles : List VtProofs.MBTiles.Tile) (hv : ∀ t ∈ t
     (fmt : TileFormat) (comp : TComp) (cov : List BBox) (x y z : Nat) (hy : y < 2 ^ z) (hz : z ≤ 31) :
     MBTiles.getTile ⟨MBTiles.writeRows tiles, fmt, comp, cov⟩ x y z = .ok (VtProofs.MBTiles.lookup tiles (x, y, z)) :=
   VtProofs.MBTiles.roundtrip tiles hv fmt comp cov x y z hy hz
+
+/-! ## tar / directory names -/
+
+/-- `parseName (formatName z x y f c) = (z, x, y, f, c)` for every coordinate (`z ≤ 31`, `x, y < 2^32`),
+    all 10 formats × 3 compressions: decimal printing/parsing, extension tables, path splitting -/
+theorem names_roundtrip (z x y : Nat) (f : TileFormat) (c : TComp)
+    (hz : z ≤ 31) (hx : x < 4294967296) (hy : y < 4294967296) :
+    TarDir.parseName (TarDir.formatName z x y f c) = some (z, x, y, f, c) :=
+  VtProofs.TarDir.parseName_formatName z x y f c hz hx hy
+
+/-- the same with the `./` prefix -/
+theorem names_roundtrip_dot (z x y : Nat) (f : TileFormat) (c : TComp)
+    (hz : z ≤ 31) (hx : x < 4294967296) (hy : y < 4294967296) :
+    TarDir.parseName ('.' :: '/' :: TarDir.formatName z x y f c) = some (z, x, y, f, c) :=
+  VtProofs.TarDir.parseName_dot_formatName z x y f c hz hx hy
+
+/-- decimal numbers: `parse (print n) = n` below the limit of the integer type -/
+theorem decimal_roundtrip (limit n : Nat) (h : n < limit) :
+    TarDir.parseUnsigned limit (TarDir.natToDec n) = some n :=
+  VtProofs.TarDir.parseUnsigned_natToDec limit n h
 
 /-! ## non-vacuity: a concrete source, a toy codec, the real model functions -/
 
